@@ -24,10 +24,13 @@ type Params struct {
 	Tag         string
 	// SyncTimers: explore under Go 1.23 timer semantics (Reset/Stop discard an unreceived tick) instead of the older ones
 	SyncTimers bool
+	// Calls > 1: Connect is called again on the same Connection after it returned for a reason other than the
+	// context; every call starts its own schedule (InitialInterval, retry count 0, MaxElapsedTime from its start).
+	Calls int
 }
 
 func (p Params) Name() string {
-	return fmt.Sprintf("init%v-mul%v-jit%v-maxint%v-maxel%v-retries%d-att%d", p.B.InitialInterval, p.B.Multiplier, p.B.Jitter, p.B.MaxInterval, p.B.MaxElapsedTime, p.B.MaxRetries, p.MaxAttempts) + p.Tag + map[bool]string{true: "-synctimers", false: ""}[p.SyncTimers]
+	return fmt.Sprintf("init%v-mul%v-jit%v-maxint%v-maxel%v-retries%d-att%d", p.B.InitialInterval, p.B.Multiplier, p.B.Jitter, p.B.MaxInterval, p.B.MaxElapsedTime, p.B.MaxRetries, p.MaxAttempts) + p.Tag + map[bool]string{true: "-synctimers", false: ""}[p.SyncTimers] + map[bool]string{true: fmt.Sprintf("-calls%d", p.Calls), false: ""}[p.Calls > 1]
 }
 
 type retryRec struct {
@@ -43,6 +46,8 @@ type world struct {
 	Err     error
 	Arms    []int64
 	Done    bool
+	// CallStarts[k]: number of attempts made before the k-th Connect call
+	CallStarts []int
 }
 
 func body(p Params) func() {
@@ -65,7 +70,12 @@ func body(p Params) func() {
 				w.Retries = append(w.Retries, retryRec{Wait: d, At: vrt.Now(), Attempts: len(w.T.Attempts), Err: err})
 			}}
 		conn := cl.NewConnection(ch.NewRequest(ctx, http.NoBody))
+		w.CallStarts = append(w.CallStarts, 0)
 		w.Err = conn.Connect()
+		for k := 1; k < p.Calls && !ctx.Cancelled(); k++ {
+			w.CallStarts = append(w.CallStarts, len(w.T.Attempts))
+			w.Err = conn.Connect()
+		}
 		w.Arms = vrt.TimerArms()
 		w.Done = true
 	}
@@ -107,7 +117,14 @@ func check(p Params) func(r *vrt.Result) string {
 		desc := func() string {
 			return fmt.Sprintf("%+v, attempts [%s]", p.B, strings.Join(hist, ", "))
 		}
+		call := 0
 		for i, a := range w.T.Attempts {
+			if call+1 < len(w.CallStarts) && i == w.CallStarts[call+1] {
+				// a new Connect call: a schedule of its own
+				call++
+				count, b, start = 0, initial, a.At
+				hist = append(hist, "| Connect again:")
+			}
 			hist = append(hist, a.Outcome.String())
 			if a.Outcome.Kind == "ok" {
 				count, b, start = 0, initial, a.At
@@ -120,7 +137,7 @@ func check(p Params) func(r *vrt.Result) string {
 					count, start = 0, a.At
 				}
 			}
-			last := i == len(w.T.Attempts)-1
+			last := i == len(w.T.Attempts)-1 || (call+1 < len(w.CallStarts) && i+1 == w.CallStarts[call+1])
 			// must a retry follow this attempt?
 			stop := p.B.MaxRetries < 0 || (p.B.MaxRetries > 0 && count == p.B.MaxRetries)
 			maybeStop := false
@@ -150,7 +167,7 @@ func check(p Params) func(r *vrt.Result) string {
 				return fmt.Sprintf("a retry was started although the limits say stop (MaxRetries %d, consecutive retries so far %d, MaxElapsedTime %v): %s", p.B.MaxRetries, count, p.B.MaxElapsedTime, desc())
 			}
 			if !retried {
-				if !stop && !maybeStop && !(last && w.T.Ended) {
+				if !stop && !maybeStop && !(i == len(w.T.Attempts)-1 && w.T.Ended) {
 					// the script ended by cancelling inside a later attempt only; here no retry although one is due
 					return fmt.Sprintf("no retry after attempt %d although retries remain (%d of MaxRetries %d used): %s; Connect returned %v", i+1, count-1, p.B.MaxRetries, desc(), w.Err)
 				}
@@ -175,7 +192,7 @@ func check(p Params) func(r *vrt.Result) string {
 				}
 			}
 			// the timer is armed with the wait reported to OnRetry (arm 0 is the initial NewTimer(0))
-			if ri >= len(w.Arms) || time.Duration(w.Arms[ri]) != rr.Wait {
+			if ri+call >= len(w.Arms) || time.Duration(w.Arms[ri+call]) != rr.Wait {
 				return fmt.Sprintf("OnRetry reported %v but the timer was armed with %v: %s", rr.Wait, w.Arms, desc())
 			}
 			if !last {
@@ -280,6 +297,13 @@ func Scenarios(tier string) []run.Scenario {
 								q.MaxAttempts = 3
 								q.Outcomes = []ch.Outcome{{Kind: "fail"}, {Kind: "ok", Stream: "retry:7\n\nretry:\n\n", End: "eof"}, {Kind: "ok", Stream: "retry:9\n\nretry\n\nretry: \n\nretry:1x\n\n", End: "err"}}
 								add(q)
+								// Connect called again on the same Connection: every call has a schedule of its own
+								q2 := p
+								q2.Calls, q2.MaxAttempts, q2.Tag = 3, 5, "-again"
+								q2.Outcomes = outcomes[:3]
+								if mr != 0 {
+									add(q2)
+								}
 								// the same histories as the main scenario under the other timer semantics
 								r := p
 								r.SyncTimers = true
@@ -307,7 +331,7 @@ func Scenarios(tier string) []run.Scenario {
 
 var Check = &run.Check{
 	ID: "C12", Level: "model_checking",
-	Rule: "Scenarios: every combination of InitialInterval {default, 1us, 1s} x Multiplier {default, 1, 2} x Jitter {default, -1, 0.25, 0.999} x MaxInterval {0, 3x initial} x MaxElapsedTime {0, 5x initial} x MaxRetries {-1, 0, 1, 3}; inside each scenario the explorer chooses every history of attempt outcomes up to the attempt bound from {transport failure, connect then drop, connect + retry field 7 / 0 / 1e12 (1e11 where the interval grows, to stay inside int64 nanoseconds) / +7 (thorough also 7x, -1, empty, two fields + read error); for Jitter -1 also a valid value followed on the same connection by empty / nameless / blank / malformed retry fields} and the random draws: 0.5 by default, with up to 1 (thorough 2) draws per execution replaced by 0 or 1-2^-53 at every position; the real Connect loop runs on the virtual clock, under the timer semantics of go 1.22 modules (a stale tick survives Reset) and, for the Jitter -1 configurations, also under those of go 1.23 (Reset and Stop discard it) (a wait of 1e12 ms costs nothing). Oracle: closed-form schedule (growth, cap, reset on success, server override, limits) compared with the waits reported to OnRetry, the durations the timer was armed with, and the virtual times of the attempts.",
+	Rule: "Scenarios: every combination of InitialInterval {default, 1us, 1s} x Multiplier {default, 1, 2} x Jitter {default, -1, 0.25, 0.999} x MaxInterval {0, 3x initial} x MaxElapsedTime {0, 5x initial} x MaxRetries {-1, 0, 1, 3}; inside each scenario the explorer chooses every history of attempt outcomes up to the attempt bound from {transport failure, connect then drop, connect + retry field 7 / 0 / 1e12 (1e11 where the interval grows, to stay inside int64 nanoseconds) / +7 (thorough also 7x, -1, empty, two fields + read error); for Jitter -1 also a valid value followed on the same connection by empty / nameless / blank / malformed retry fields} and the random draws: 0.5 by default, with up to 1 (thorough 2) draws per execution replaced by 0 or 1-2^-53 at every position; the real Connect loop runs on the virtual clock, under the timer semantics of go 1.22 modules (a stale tick survives Reset) and, for the Jitter -1 configurations, also under those of go 1.23 (Reset and Stop discard it) (a wait of 1e12 ms costs nothing). For Jitter -1 also up to three Connect calls on one Connection. Oracle: closed-form schedule (growth, cap, reset on success, server override, limits) compared with the waits reported to OnRetry, the durations the timer was armed with, and the virtual times of the attempts.",
 	Assumptions: []string{
 		"attempts take no virtual time; MaxElapsedTime is measured from the last successful connection (or the start of Connect), as the implementation documents",
 		"a retry value is valid iff it consists of ASCII digits; values up to 1e12 ms are used",
